@@ -127,7 +127,7 @@ pub fn rate_value(r: &VehicleCostRate, x: f64) -> f64 {
 }
 
 pub fn rate_json(r: &VehicleCostRate) -> Value {
-    serde_json::to_value(r).unwrap_or(Value::Null)
+    crate::worldjson::rate_to_json(r)
 }
 
 impl TermCfg {
